@@ -166,7 +166,7 @@ def parse_log(text):
         "program_steps": int(steps.group(1)) if steps else None,
         "stubs_applied": stubs,
         "functions_with_checks": funcs,
-        "cbmc_error": bool(re.search(r"Status: ERROR|CBMC failed|std::bad_alloc|Out of memory|SIGSEGV|SIGKILL|SIGABRT|terminated by signal", text)),
+        "cbmc_error": bool(re.search(r"CBMC failed|std::bad_alloc|Out of memory|SIGSEGV|SIGKILL|SIGABRT|terminated by signal|error: internal compiler error", text)),
     }
 
 
@@ -271,7 +271,7 @@ def classify(h, r, prop):
         return "inconclusive", ["tool error / out of memory (rc=%s), see %s" % (r["rc"], r["log"])]
     notes = []
     for s in h.get("stubs", []):
-        if not any(STUB_LINES[s] in x for x in r["stubs_applied"]):
+        if not any(STUB_LINES[s] in x.replace(" ", "") for x in r["stubs_applied"]):
             return "inconclusive", ["stub %s not applied" % s]
     fails = [c for c in r["checks"] if c["status"] == "FAILURE"]
     undet = [c for c in r["checks"] if c["status"] in ("UNDETERMINED", "ERROR")]
@@ -304,8 +304,8 @@ def extract_playback(r, failing_descs):
     for t in r.get("playback_tests", []):
         if "kani::concrete_playback_run" not in t:
             continue
-        if "Check for `cover`" in t:
-            continue
+        # tests are named after a hash of their concrete values: a failing assertion whose
+        # witness equals a cover's witness is printed once, under the cover's header - keep all
         out.append(t)
     return out
 
@@ -342,7 +342,7 @@ def run_replay_file(rpath, ctx):
                 f.write(t + "\n")
             f.write("}\n")
         results = {}
-        for prof in ("dev", "release"):
+        for prof in ("dev",):  # cargo kani playback (0.68) has no --release
             cmd = ["cargo", "kani", "playback", "-Z", "concrete-playback"]
             if h.get("stubs"):
                 cmd += ["-Z", "stubbing"]
@@ -358,7 +358,7 @@ def run_replay_file(rpath, ctx):
             results[prof] = {"failed": failed, "passed": passed, "rc": p.returncode}
             with open(os.path.join(LOGS, "replay-%s-%s.log" % (hname, prof)), "w") as lf:
                 lf.write(out)
-        repro = bool(results["dev"]["failed"] or results["release"]["failed"])
+        repro = bool(results["dev"]["failed"])
         return repro, results
     finally:
         shutil.rmtree(scratch, ignore_errors=True)
